@@ -403,6 +403,7 @@ func (s *scen) self(role string) *actor {
 	a := &actor{idx: len(s.actors), role: role, done: make(chan struct{})}
 	a.gid.Store(gdump.GoID())
 	s.byGid.Store(a.gid.Load(), a)
+	harnessGids.Store(a.gid.Load(), true)
 	s.actors = append(s.actors, a)
 	return a
 }
@@ -420,6 +421,7 @@ func (s *scen) spawn(role string, seed int64, start <-chan struct{}, f func(a *a
 		id := gdump.GoID()
 		a.gid.Store(id)
 		s.byGid.Store(id, a)
+		harnessGids.Store(id, true)
 		close(reg)
 		if start != nil {
 			<-start
@@ -475,6 +477,42 @@ func (w *waiter) pause() bool {
 	return time.Since(w.since) < caseGuard
 }
 
+// Blindness self-check. The keying of "writer" is a property of the build. Every child process
+// starts with a calibration run (calibrate) and every gated/stress run and most enqueue-then-stop
+// runs call probeWriter at a point where a writer must exist (an Enqueue has returned or reached a
+// yield point, Stop not yet invoked): if the rules see none there, they are blind for this build
+// (or the writer vanished without Stop) and nothing may be decided – the process reports
+// INCONCLUSIVE and stops, it never reports a violation.
+var writerSightings atomic.Int64
+
+func (s *scen) probeWriter() bool {
+	s.c.Count("writer_probes_where_one_must_exist", 1)
+	s.c.Count("snapshots", 1)
+	if _, ok := liveWriter(gdump.Snapshot()); ok {
+		if writerSightings.Add(1) == 1 {
+			s.c.Emit("sighting", 1)
+		}
+		s.c.Count("writer_probes_seen", 1)
+		return true
+	}
+	s.c.Inconclusive(s.cs.name() + ": a writer goroutine must exist (Enqueue returned/at a yield point, Stop not yet invoked) but the snapshot rules identify none – the rules are blind for this build, nothing decided")
+	return false
+}
+
+// calibrate: one throw-away run at process start; false = blind.
+func calibrate(c *vf.Ctx) bool {
+	cs := &caseRec{Kind: "calibration", Q: 1, B: 1, TimeoutNs: int64(time.Millisecond)}
+	s := newScen(c, cs, 1)
+	cur.Store(s)
+	defer cur.Store(nil)
+	s.enqueue(s.self("main"), s.objs[0])
+	if !s.probeWriter() {
+		return false
+	}
+	s.spawn("stopper", 0, nil, func(a *actor) { s.stop(a) })
+	return s.finishWait()
+}
+
 func (s *scen) snapshot() []gdump.G {
 	s.snaps++
 	return gdump.Snapshot()
@@ -484,11 +522,27 @@ func (s *scen) snapshot() []gdump.G {
 // idle for ever (they stay parked in their select); later runs must not mistake them for their own.
 var leakedWriters = map[uint64]bool{}
 
+// harnessGids: ids of every goroutine this process created for (or used as) a caller.
+var harnessGids sync.Map
+
+const kvPkg = "github.com/iotaledger/hive.go/kvstore."
+
+// isHarnessGoroutine: the main goroutine, the registered actors, and anything started by package main.
+func isHarnessGoroutine(g gdump.G) bool {
+	if _, ok := harnessGids.Load(g.ID); ok {
+		return true
+	}
+	return g.ID == 1 || strings.Contains(g.Raw, "\ncreated by main.") || g.Has("main.main")
+}
+
+// liveWriter: a "writer" is any goroutine that the harness did not create and that has at least one
+// frame of package kvstore – any function name, so renaming unexported functions does not blind the
+// rules – or that was created by a function of that package (a goroutine that has not run yet shows
+// only a compiler-generated wrapper frame plus its "created by" line; both are in the package).
+// Callers are told apart by id/creator, never by unexported names.
 func liveWriter(gs []gdump.G) (gdump.G, bool) {
 	for _, g := range gs {
-		// the "created by" line covers a writer goroutine that has not run yet (its only frame is
-		// startBatchWriter.gowrap1 then)
-		if (g.Has("(*BatchedWriter).runBatchWriter") || strings.Contains(g.Raw, "kvstore.(*BatchedWriter).startBatchWriter")) && !leakedWriters[g.ID] {
+		if strings.Contains(g.Raw, kvPkg) && !isHarnessGoroutine(g) && !leakedWriters[g.ID] {
 			return g, true
 		}
 	}
@@ -498,7 +552,7 @@ func liveWriter(gs []gdump.G) (gdump.G, bool) {
 func writerAlive(gs []gdump.G) bool { _, ok := liveWriter(gs); return ok }
 
 // idleTracker measures for how long the writer goroutine has been parked in the select of
-// collectValues (runBatchWriter.func1) without any writer-side event. Every way out of that
+// its own select (innermost non-runtime frame in package kvstore) without any writer-side event. Every way out of that
 // select is followed by such an event (an object received: ResetBatchWriteScheduled/BatchWrite;
 // flush or time-out: Commit or Cancel, then Batched), so an unchanged event count between two
 // observations means the writer never left the select in between.
@@ -508,8 +562,20 @@ type idleTracker struct {
 	gid   uint64
 }
 
+// selectInKvstore: the innermost non-runtime frame of the parked goroutine is a function of package
+// kvstore, i.e. the select statement itself is the writer's (not one in the store or the harness).
+func selectInKvstore(g gdump.G) bool {
+	for _, f := range g.Frames {
+		if strings.HasPrefix(f, "runtime.") {
+			continue
+		}
+		return strings.HasPrefix(f, kvPkg)
+	}
+	return false
+}
+
 func (it *idleTracker) observe(m *mon, wg gdump.G, alive bool) time.Duration {
-	if !alive || wg.State != "select" || !wg.Has("(*BatchedWriter).runBatchWriter.func1") {
+	if !alive || wg.State != "select" || !selectInKvstore(wg) {
 		it.since = time.Time{}
 		return 0
 	}
@@ -532,10 +598,11 @@ func inStopWait(g gdump.G) bool {
 // finishWait waits until every actor has returned or is blocked for ever by a
 // permanence rule, and the writer goroutine is gone. Rules (one consistent
 // snapshot each; autoStartOnce guarantees that no second writer can ever be
-// started, and only runBatchWriter receives from batchQueue / calls writeWg.Done):
+// started, and only the writer goroutine receives from batchQueue / calls writeWg.Done;
+// "writer" = any kvstore-package goroutine the harness did not create, see liveWriter):
 //
-//	R1 actor in BatchedWriter.Enqueue, state "chan send", no goroutine has runBatchWriter on its stack
-//	R2 actor in StopBatchWriter→WaitGroup.Wait, no goroutine has runBatchWriter on its stack
+//	R1 actor in BatchedWriter.Enqueue, state "chan send", no writer goroutine alive
+//	R2 actor in StopBatchWriter→WaitGroup.Wait, no writer goroutine alive
 //	R3 every caller has returned except Stop callers parked in WaitGroup.Wait (or queued behind one
 //	   on startStopMutex), and the writer is parked in collectValues' select with no writer-side
 //	   event for idleBound() (>= 500x the configured batch time-out, >= 2 s): nobody is left to send
@@ -876,6 +943,10 @@ func (s *scen) report(extraKey string) []string {
 	viol := func(fp, what, dump string) {
 		r := *cs
 		r.Fingerprint, r.Log, r.Dump = fp, s.logStrings(300), dump
+		if writerSightings.Load() == 0 {
+			c.Inconclusive(cs.name() + ": finding " + fp + " dropped, no writer goroutine was ever identified in this process")
+			return
+		}
 		c.Violation(fp, cs.name()+": "+what, r)
 		c.Count("viol:"+cs.Kind+":"+fp, 1)
 		fps = append(fps, fp)
@@ -883,7 +954,7 @@ func (s *scen) report(extraKey string) []string {
 	for _, a := range s.actors {
 		switch a.hung {
 		case fpEnqBlocked:
-			viol(a.hung, fmt.Sprintf("actor%d is blocked for ever in BatchedWriter.Enqueue (chan send on batchQueue) – no goroutine has runBatchWriter on its stack and autoStartOnce prevents a restart", a.idx), a.dump)
+			viol(a.hung, fmt.Sprintf("actor%d is blocked for ever in BatchedWriter.Enqueue (chan send on batchQueue) – no writer goroutine (any goroutine of package kvstore that the harness did not create) is alive and autoStartOnce prevents a restart", a.idx), a.dump)
 		case fpStopBlocked:
 			viol(a.hung, fmt.Sprintf("actor%d is blocked for ever in StopBatchWriter (writeWg.Wait) – no writer goroutine alive to call Done", a.idx), a.dump)
 		case fpStopIdle:
@@ -975,6 +1046,10 @@ func runGated(c *vf.Ctx, cs *caseRec) ([]string, bool) {
 	close(start)
 	select {
 	case <-g.reached:
+		if !s.probeWriter() {
+			close(g.release)
+			return nil, false
+		}
 	case <-p.done:
 		c.Count("gate_not_reached", 1)
 		c.Inconclusive(fmt.Sprintf("%s: Enqueue returned without reaching yield point %s", cs.name(), cs.Point))
@@ -1045,9 +1120,14 @@ func runEnqStop(c *vf.Ctx, cs *caseRec) ([]string, bool) {
 	variant := rng.Intn(4)
 	// Enqueue(s) and Stop are issued back to back by one goroutine (not the polling main goroutine,
 	// so that a Stop that never returns is decided by rule R2)
-	s.spawn("enqueue-then-stop", 0, nil, func(mainA *actor) {
+	var blind atomic.Bool
+	es := s.spawn("enqueue-then-stop", 0, nil, func(mainA *actor) {
 		for i := 0; i < cs.InFlight; i++ {
 			s.enqueue(mainA, s.objs[i])
+		}
+		if variant != 0 && !s.probeWriter() {
+			blind.Store(true)
+			return
 		}
 		switch variant { // jitter between the last Enqueue and Stop
 		case 1:
@@ -1061,7 +1141,8 @@ func runEnqStop(c *vf.Ctx, cs *caseRec) ([]string, bool) {
 		}
 		s.stop(mainA)
 	})
-	if !s.finishWait() {
+	_ = es
+	if !s.finishWait() || blind.Load() {
 		return nil, false
 	}
 	return s.report(fmt.Sprintf("v%d", variant)), true
@@ -1074,6 +1155,9 @@ func runStress(c *vf.Ctx, cs *caseRec) ([]string, bool) {
 	// the writer is started by the first Enqueue; a Stop that precedes the start is a no-op and is
 	// outside the statement, so one object is enqueued before the producers and the stopper run
 	s.enqueue(s.self("main"), s.objs[0])
+	if !s.probeWriter() {
+		return nil, false
+	}
 	var opCount atomic.Int64
 	stopSig := make(chan struct{})
 	var stopOnce sync.Once
@@ -1127,6 +1211,9 @@ func child(c *vf.Ctx) {
 	var b batch
 	if err := json.NewDecoder(os.Stdin).Decode(&b); err != nil {
 		c.Inconclusive("child: cannot decode case list: " + err.Error())
+		return
+	}
+	if !calibrate(c) {
 		return
 	}
 	switch c.Child {
@@ -1268,7 +1355,14 @@ func runShard(c *vf.Ctx, mode string, cases []caseRec, raceBuild bool, timeout t
 	case res.TimedOut || res.Deadlock:
 		// watchdog: decided only if a permanence rule matches the SIGQUIT dump
 		gs := gdump.Parse(res.Stderr)
-		if len(gs) > 0 && !writerAlive(gs) {
+		sighted := false
+		for _, r := range res.Records {
+			if r.Kind == "sighting" {
+				sighted = true
+			}
+		}
+		// the dump rules are only trusted if this child had identified a writer goroutine before
+		if sighted && len(gs) > 0 && !writerAlive(gs) {
 			for _, g := range gs {
 				if inEnqueueSend(g) {
 					last.Fingerprint, last.Dump = fpEnqBlocked, g.Raw
@@ -1417,6 +1511,7 @@ func run(c *vf.Ctx) {
 	c.Require("batches_partial_timeout_certain", 100)
 	c.Require("flush_calls", 100)
 	c.Require("runs_stress", c.Pick(1700, 17000))
+	c.Require("writer_probes_seen", c.Pick(3000, 40000)) // blindness self-check: the rules did identify writer goroutines
 	for _, t := range timeouts {
 		c.Require("runs_gated_timeout="+t.String(), c.Pick(250, 3500))
 		c.Require("runs_enqstop_timeout="+t.String(), c.Pick(100, 1500))
@@ -1424,7 +1519,7 @@ func run(c *vf.Ctx) {
 	}
 	c.Require("runs_batch_larger_than_objects", c.Pick(700, 8000))
 	c.Require("runs_queue_large", c.Pick(700, 8000))
-	c.Assume("runtime.Stack(all) snapshots are consistent (stop-the-world); only runBatchWriter receives from batchQueue and calls writeWg.Done, and autoStartOnce prevents a second writer goroutine – which makes the two permanence rules sound")
+	c.Assume("runtime.Stack(all) snapshots are consistent (stop-the-world); only the writer goroutine (any goroutine of package kvstore not created by the harness) receives from batchQueue and calls writeWg.Done, and autoStartOnce prevents a second writer goroutine – which makes the two permanence rules sound")
 	c.Assume("mapdb (the backing store) commits a batch atomically and reads back what was committed")
 }
 
